@@ -71,8 +71,10 @@ CHECKS = {
           "replacefirst): safety in quick, liveness under weak fairness in thorough. "
           "Handler level with a fabricated resharing (same secret, fresh polynomial; shapes same/add/remove/replace/threshold-up): remaining members get TransitionNewGroup, joiners start in "
           "catch-up mode, leavers are stopped after the transition, as production does; " + _NET + ". Monitors: distributed key unchanged, C02 monitors across the transition round, "
-          "partials made with old-epoch shares are not accepted after the switch, the new group keeps producing (NoProgress).",
-  "design_ref": "DESIGN.md 4 C07", "note": _TRUST + " The DKG itself is not run here (fabricated resharing).", "technique": _TECH,
+          "partials made with old-epoch shares are not accepted after the switch, the new group keeps producing (NoProgress). Identity: GroupTransition.tla <-> validateGroupTransition "
+          "(complete catalogue), and real resharings on dkg.Process networks (DKGExec.tla behaviours, shared with the C06 check) with monitor IdentityKept: every node's completed "
+          "resharing keeps the distributed public key, genesis time and seed, period and scheme of the group it reshares.",
+  "design_ref": "DESIGN.md 4 C07", "note": _TRUST + " The beacon-network part uses a fabricated resharing; the DKG part does not run beacons.", "technique": _TECH,
  },
  "C13": {
   "text": "Exhaustive TLC exploration of Persist.tla: every persistence step of scripted runs (first DKG, beacons, resharing, leaving) in the code's order with Crash enabled in every state and "
